@@ -879,7 +879,9 @@ def call_numpy(it, f, args, kwargs, node):
             fname = repr(a0.value)
         else:
             fname = ast.unparse(node.args[0]) if node is not None and node.args else "?"
-        r = it.fresh(T.sym("file(%s)" % fname), None, "ndarray", node)
+        # np.loadtxt squeezes: a file with one row or one column comes back 1-D (one number: 0-d) unless ndmin says otherwise
+        okn, nd = const_of(kwargs.get("ndmin", VConst(0)))
+        r = it.fresh(T.sym("file(%s)" % fname), (UNK,) * nd if okn and isinstance(nd, int) and nd >= 1 else None, "ndarray", node)
         r.obj.loadtxt_kwargs = kwargs
         return r
     if f.startswith("random."):
